@@ -6,7 +6,7 @@ s = open(os.path.join(ROOT, "DESIGN.md")).read()
 rows = ["| id | change (one line) | needs, to manifest | caught by |", "|---|---|---|---|"]
 for mf in sorted(glob.glob(os.path.join(ROOT, "seeded", "*", "meta.json"))):
     m = json.load(open(mf))
-    rows.append(f"| {m['property']} | {m['summary']} | {m['needs_to_manifest']} | {'; '.join(m['caught_by'])} |")
+    rows.append(f"| {os.path.basename(os.path.dirname(mf))} | {m['summary']} | {m['needs_to_manifest']} | {'; '.join(m['caught_by'])} |")
 a = s.index("<!-- seeded-table-begin -->"); b = s.index("<!-- seeded-table-end -->")
 s = s[:a] + "<!-- seeded-table-begin -->\n" + "\n".join(rows) + "\n" + s[b:]
 open(os.path.join(ROOT, "DESIGN.md"), "w").write(s)
